@@ -112,6 +112,13 @@ def requests(tier, rng):
         ops += ["i", "a:4", "f", "s:48" if is256 else "b:1"]
         n = sum(int(o[2:]) for o in ops if o.startswith("a:"))
         L.append("fips202::%s %s %s" % ("shake256_script" if is256 else "shake128_script", ",".join(ops), hexs(data(rng, n))))
+    # the public byte-order helpers load64 / store64 (little endian, exactly 8 bytes of a possibly longer buffer)
+    for u in [0, 1, 0xFF, 0x100, 0x0102030405060708, 2**63, 2**64 - 1, 2**32, 2**32 - 1] + [rng.getrandbits(64) for _ in range(20)]:
+        b = u.to_bytes(8, "little")
+        L.append("@impl fips202::load64 %s" % hexs(b))
+        L.append("@impl fips202::load64 %s" % hexs(b + bytes([0xEE] * 5)))
+        L.append("@impl fips202::store64 %d 0" % u)
+        L.append("@impl fips202::store64 %d 9" % u)
     # stream init functions (seed || nonce LE)
     for nonce in (0, 1, 255, 256, 257, 0x1234, 65535):
         L.append("fips202::shake128_stream_init %s %d 2" % (hexs(data(rng, 32)), nonce))
@@ -125,6 +132,8 @@ def requests(tier, rng):
 
 def expected(line):
     """FIPS 202 answer from hashlib for well-formed requests (None = no oracle for this request)"""
+    if line.startswith("@impl "):
+        return None
     t = line.split()
     fn = t[0].split("::")[1]
     if fn == "shake256":
@@ -170,7 +179,23 @@ def expected(line):
     return None
 
 
+def _bytes_helpers(line, checked, release):
+    t = line.replace("@impl ", "").split()
+    if t[0] == "fips202::load64":
+        want = "ok %d" % int.from_bytes(bytes.fromhex(t[1])[:8], "little")
+    elif t[0] == "fips202::store64":
+        want = "ok " + int(t[1]).to_bytes(8, "little").hex()
+    else:
+        return None
+    for prof, ans in (("checked", checked), ("wrapping", release)):
+        if ans != want:
+            return "%s build: %s %s answers %s, little-endian conversion gives %s" % (prof, t[0], t[1][:20], ans[:40], want)
+    return None
+
+
 def violated(line, checked, release):
+    if "fips202::load64" in line or "fips202::store64" in line:
+        return _bytes_helpers(line, checked, release)
     e = expected(line)
     if e is None:
         return None
